@@ -294,7 +294,7 @@ func c11Gen(c *Ctx, rng *Rng) []*c11Case {
 		cases = append(cases, c11MkRawBody(p.f, "probe", p.body))
 	}
 	// random bodies
-	nrand := c.Pick(1500, 40000)
+	nrand := c.Pick(1500, 24000)
 	for i := 0; i < nrand; i++ {
 		f := forms[rng.Intn(4)]
 		n := rng.Intn(14)
@@ -704,7 +704,10 @@ func c11Batches(c *Ctx, ks []*c11Case) {
 	for s := 0; s < len(ks) && len(starts) < maxBatches; s += per {
 		starts = append(starts, s)
 	}
+	sem := make(chan struct{}, 4) // at most 4 go builds at a time
 	Parallel(len(starts), func(bi int) {
+		sem <- struct{}{}
+		defer func() { <-sem }()
 		lo := starts[bi]
 		hi := lo + per
 		if hi > len(ks) {
@@ -733,7 +736,11 @@ func c11Batches(c *Ctx, ks []*c11Case) {
 			return
 		}
 		c.GoModFor(dir, "c11batch")
-		if out, ok := c.GoBuild(dir); !ok {
+		br := Run(dir, 1500e9, 0, goEnv, "go", "build", "-o", "prog", ".")
+		if br.TimedOut {
+			panic("go build of a batch of literal programs timed out (machine overloaded?)")
+		}
+		if out, ok := br.Stdout+br.Stderr, br.Exit == 0; !ok {
 			// name the literal(s) the compiler complains about
 			gen, _ := os.ReadFile(filepath.Join(dir, "gen_m.go"))
 			lines := strings.Split(string(gen), "\n")
